@@ -90,6 +90,8 @@ class TALFileHandler(FileHandler):
             self.entry.realencoding = self.entry.encoding
             self.entry.encoding = None
             self.entry.type = self.entry.guesstype()
+            # The size on disk is that of the template, not of its expansion.
+            self.entry.size = None
 
         return self.entry
 
